@@ -37,7 +37,7 @@ ASSUMES = [
     "user retry policy = StubPolicy(choice): returns None / 0 / positive delay (environment)",
     "event payloads are opaque (pool instances); timestamps are ints",
 ]
-OUTSIDE = ["num_workers > 3, queue length > 2 per step, more than two steps", "asyncio task scheduling itself (covered in the thorough whole-run obligation)"]
+OUTSIDE = ["num_workers > 3, queue length > 2 per step, more than two steps", "asyncio task scheduling itself (the thorough whole-run obligation of C02, ob_whole_run_delivery, also asserts observed concurrency <= num_workers)"]
 
 QMAX = B(2, 3)
 
